@@ -93,7 +93,17 @@ impl Completions {
         }
 
         // Let the kernel write more completions.
+        #[cfg(a10_verif)]
+        crate::verif::yield_point(
+            crate::verif::Site::CqHeadStore,
+            self.entries_head.addr().get(),
+        );
         unsafe { (&*self.entries_head.as_ptr()).store(head, Ordering::Release) };
+        #[cfg(a10_verif)]
+        crate::verif::yield_point(
+            crate::verif::Site::CqHeadStored,
+            self.entries_head.addr().get(),
+        );
 
         Ok(())
     }
